@@ -295,6 +295,11 @@ func readHTTPRequest(req *http.Request) (*FederationRequest, error) { // nolint:
 		if !utf8.Valid(content) {
 			return nil, fmt.Errorf("gomatrixserverlib: The request contained invalid UTF-8")
 		}
+		if hasUnpairedSurrogateEscape(content) {
+			// Half a surrogate pair denotes no character and is dropped from the
+			// canonical JSON, so it would not be covered by the signature.
+			return nil, fmt.Errorf("gomatrixserverlib: The request contained an unpaired UTF-16 surrogate escape")
+		}
 		result.fields.Content = spec.RawJSON(content)
 	}
 
@@ -368,4 +373,57 @@ func ParseAuthorization(header string) (scheme string, origin, destination spec.
 		}
 	}
 	return
+}
+
+// hasUnpairedSurrogateEscape reports whether the JSON text contains a \uXXXX
+// escape of a UTF-16 surrogate that is not part of a high/low pair.
+func hasUnpairedSurrogateEscape(js []byte) bool {
+	hex := func(b []byte) (rune, bool) {
+		var r rune
+		for _, c := range b {
+			switch {
+			case '0' <= c && c <= '9':
+				r = r<<4 | rune(c-'0')
+			case 'a' <= c && c <= 'f':
+				r = r<<4 | rune(c-'a'+10)
+			case 'A' <= c && c <= 'F':
+				r = r<<4 | rune(c-'A'+10)
+			default:
+				return 0, false
+			}
+		}
+		return r, true
+	}
+	for i := 0; i < len(js); i++ {
+		if js[i] != '\\' || i+1 >= len(js) {
+			continue
+		}
+		if js[i+1] != 'u' {
+			i++ // skip the escaped character
+			continue
+		}
+		if i+6 > len(js) {
+			return true
+		}
+		r, ok := hex(js[i+2 : i+6])
+		if !ok {
+			return true
+		}
+		i += 5
+		if r < 0xD800 || r > 0xDFFF {
+			continue
+		}
+		if r >= 0xDC00 {
+			return true // a low surrogate comes first
+		}
+		if i+7 > len(js) || js[i+1] != '\\' || js[i+2] != 'u' {
+			return true
+		}
+		r2, ok := hex(js[i+3 : i+7])
+		if !ok || r2 < 0xDC00 || r2 > 0xDFFF {
+			return true
+		}
+		i += 6
+	}
+	return false
 }
